@@ -173,6 +173,17 @@ func l1Generate(seed int64, idx int) l1History {
 		}
 		h.Pkgs = append(h.Pkgs, p)
 	}
+	if r.Intn(16) == 0 {
+		// two packages of one name whose paths the replacer maps to the same components: the family
+		// on which resolveImportConflict never finds a level that tells them apart (finding D12)
+		twins := [][2]string{{"foo-bar", "foobar"}, {"go-yaml", "goyaml"}, {"my_pkg", "mypkg"}, {"a.b", "ab"}, {"a~b", "ab"}, {"Upper", "upper"}}
+		tw := twins[r.Intn(len(twins))]
+		pre := l1Comps[r.Intn(len(l1Comps))]
+		post := l1Comps[r.Intn(len(l1Comps))]
+		name := l1Names[r.Intn(len(l1Names))]
+		h.Pkgs[0] = l1Pkg{pre + "/" + tw[0] + "/" + post, name}
+		h.Pkgs[1] = l1Pkg{pre + "/" + tw[1] + "/" + post, name}
+	}
 	nscopes := 1 + r.Intn(3)
 	for s := 0; s < nscopes; s++ {
 		if s > 0 {
